@@ -19,9 +19,19 @@ CONFIG = dict(
           "(Random::with_rng); (4) the public helpers proportional_weights / reverse_rank / objective_bounds compared "
           "directly on random objective lists; (5) selection pressure: 3 members with distinct objectives, 6000 draws per "
           "fitness-based operator, 5-sigma ordering test; (5b) an 'extreme' stream (finite objectives/offsets around 1e308 whose "
-          "weight arithmetic overflows to inf/NaN) on which only the model's prediction is compared; (6) a 'malformed' stream (empty stack, unevaluated members, "
+          "weight arithmetic overflows to inf/NaN) on which only the model's prediction is compared — for RouletteWheel / SUS / IWO, whose "
+          "weight arithmetic overflows there, any frame-keeping outcome agrees (Err/panic with the stack untouched, or one pushed "
+          "population of source members in the requested number), the comparison-only operators are compared exactly; "
+          "(6) a 'malformed' stream (empty stack, unevaluated members under an operator that selects by fitness, "
           "negative/NaN offset, base outside [eps,1), y outside {1,2}) on which only the model's predicted Err/panic is "
-          "compared. A case is non-trivial if it is not in the malformed stream and its population / objective list has "
+          "compared; on a population with an unevaluated member a fitness-based operator may panic or not (agreement: the code "
+          "panics, or does what the model does, or the model panics and the code reports Err / pushes copies of source members); "
+          "(7) the operators that never read an objective (All, None, CloneSingle, FullyRandom, RandomWithoutRepetition, DERand) on "
+          "unevaluated / partly evaluated populations on top of 0..3 other populations — inside the property, judged by O; "
+          "(8) populations of 12..40 members with ties, counts 0, 1, len-1, len, len+1, 3*len, tournament sizes up to len+1, stacks of "
+          "height 1..4, every operator. The member standing in the 'best' slot of DEBest / DECurrentToBest is read off the output "
+          "(any member of minimal objective is legal). -0.0 is in the objective grids. "
+          "A case is non-trivial if it is not in the malformed stream and its population / objective list has "
           "at least 2 members; distinct = distinct input string."),
     nontrivial=lambda inp: "malformed" not in inp and (inp.count("(pop (") >= 1 and inp.split("(pop", 2)[1].count("(") >= 2
                                                        or inp.startswith("(pw") or inp.startswith("(rrank") or inp.startswith("(freq")),
@@ -29,8 +39,8 @@ CONFIG = dict(
         "rand 0.8 primitives are represented by their contracts only: SliceRandom::choose / choose_multiple (positions in range, "
         "distinct, min(k,len) many), WeightedIndex::new (Err on no item / invalid weight / zero total; panic on non-finite total), "
         "WeightedIndex::sample (a position in range), Rng::gen::<f64>() in [0,1)",
-        "Vec/iterator primitives (iter, flat_map, filter, repeat/take, min_by_key = first minimum, itertools sorted_by_key = stable, "
-        "group_by on consecutive equal keys) represented by their list semantics",
+        "Vec/iterator primitives (iter, flat_map, filter, repeat/take, min_by_key = first minimum (tournament rounds; for the DE 'best' "
+        "any minimum is accepted), itertools sorted_by_key = stable, group_by on consecutive equal keys) represented by their list semantics",
         "population stack = plain list (refinement of Populations proved in C04)",
         "Lean `Float` = IEEE binary64 with the same +,-,*,/,floor as Rust f64 (used by the compiled driver only)"],
     assumptions=["objective values are never NaN (SingleObjective::try_from, C09)",
@@ -47,16 +57,32 @@ CONFIG.update(
                 "input with documented parameters; proportional weights, linear and exponential rank weights are antitone in the "
                 "objective; reverse_rank gives rank 1 to the lowest objective, ties share; a tournament winner is the first minimum "
                 "of its competitors and a whole-population tournament returns a best individual; SUS returns exactly n on Ok "
-                "over any carrier (Float included); the DE selections return one block of 2y+1 per member; IWO copies each member between min and max times, "
+                "over any carrier (Float included), its k-th selected position is the FIRST position whose cumulative weight reaches the "
+                "k-th selection point (u+k)*total/n, positions come in population order (sus_point_in_range), and copies are handed out in "
+                "proportion to the weights up to one copy (sus_copies_proportional: k2-k1 points on one member need weight >= (k2-k1)*g, a member "
+                "skipped between two points k1 < k2 has weight < (k2-k1)*g, end-of-wheel bounds); the DE selections return one block of 2y+1 per "
+                "member whose CONTENT is as documented (de_rand_blocks: 2y+1 pairwise distinct positions; de_best_blocks: [best, 2y distinct]; "
+                "de_current_to_best_blocks: [current, best, 2y-1 distinct others]) where 'best' is ANY member of minimal objective (witness "
+                "position, BestIdx) and the code's first minimum is one of the legal choices (code_best_is_legal); All returns the population "
+                "itself and None nothing (all_none_exact); the six operators that never read an objective behave as documented on EVERY "
+                "population, unevaluated ones included, without any side condition (documented_errors_no_fitness); IWO copies each member between min and max times, "
                 "antitone in the objective. Partial forms + counterexample theorems document the two helper guarantees that "
                 "the code does not meet (side findings below). The model is tied to /repo by executing the real components and comparing with the compiled Float "
-                "model under the recovered witness (K), evaluating the property predicate on the implementation's output (O), and "
+                "model under the recovered witness (K), evaluating the property predicate on the implementation's output (O; for SUS "
+                "additionally: a worse member never gets more than two copies more than a better one — the integer consequence of "
+                "sus_copies_proportional, one boundary point on either side; for All and IWO the multiset of copies, not their order), and "
                 "a 5-sigma frequency test for selection pressure."),
     level_note=("Trusted: Lean kernel; contracts of rand's sampling primitives; list semantics of iterator adaptors; harness + "
                 "driver parsing/printing. partial: the distributions of the samplers (only the 5-sigma ordering test looks at "
                 "frequencies), floating-point rounding/overflow in the weight arithmetic (theorems are exact arithmetic; the "
                 "Float model is compared with the code on the generated cases only), WeightedIndex internals; on the 'extreme' stream RouletteWheel panics ('Uniform::new: range overflow') when the weight "
-                "total overflows (e.g. objectives 0, 0, 5e307, 5e307, 1, -1 with offset 1) — predicted by the model, not judged. Side findings "
+                "total overflows (e.g. objectives 0, 0, 5e307, 5e307, 1, -1 with offset 1) — predicted by the model, not judged, and not pinned "
+                "either (where an overflow surfaces depends on how the same weight is written). Not pinned down on purpose: which of several "
+                "equally good members is 'best' in the DE selections, the order of the copies in O (K still compares it), whether a "
+                "fitness-based operator panics on an unevaluated member. The step from sus_copies_proportional to the integer bound "
+                "'at most two copies more' used by O (contiguity of equal positions in a sorted list) is argued in the docstring, not "
+                "proved. Still pinned by K only: Err-versus-Ok in corners the property leaves open (e.g. LinearRank with n = 0 on an empty "
+                "population), the order of the copies of All / IWO, the rounding direction of the IWO seed count. Side findings "
                 "outside the property statement (Lean counterexamples proportional_weights_lt_offset, "
                 "proportional_weights_not_normalized): proportional_weights returns weight 1 < offset for all-equal non-positive "
                 "objectives with offset > 1, and ignores `normalize` for all-positive objectives."),
